@@ -107,7 +107,98 @@ func c15ReporterJobs(tier string) []*SeqJob {
 			return
 		}
 	}
+	// dead first destination: destination 0 is a UDP port nobody listens on. On loopback the kernel answers every
+	// datagram sent there with "port unreachable", which the *next* send on that socket reports as an error - a
+	// transient send error at a destination that is not the last one, on every second flush. The healthy second
+	// destination may miss the messages whose flush failed at destination 0; whatever it does receive must be one
+	// complete batch per datagram, never the same batch twice, and it must go on receiving later batches.
+	execDead := func(kind string) func(hist []int) (string, string, string, int) {
+		return func(hist []int) (cl, det, key string, steps int) {
+			good := newFastSink()
+			defer good.close()
+			dead := newFastSink()
+			deadAddr := dead.addr
+			dead.close()
+			cl, det = guard(func() (string, string) {
+				r, err := m3.NewReporter(m3.Options{HostPorts: []string{deadAddr, good.addr}, Service: "svc", Env: "test", Protocol: m3Proto(kind), MaxQueueSize: 64, MaxPacketSizeBytes: 32768})
+				if err != nil {
+					return "new-reporter", err.Error()
+				}
+				a := r.AllocateCounter("u.a", map[string]string{"k": "v"})
+				b := r.AllocateGauge("u.b", nil)
+				reported := map[string]bool{}
+				n := 0
+				for i, op := range hist {
+					steps++
+					switch alphabet[op] {
+					case "small a":
+						a.ReportCount(int64(100 + i))
+						reported[fmt.Sprintf("u.a count=%d", 100+i)] = true
+						n++
+					case "small b":
+						b.ReportGauge(float64(200 + i))
+						reported[fmt.Sprintf("u.b gauge=%v", float64(200+i))] = true
+						n++
+					case "huge":
+						continue
+					}
+					r.Flush()
+				}
+				if err := r.Close(); err != nil {
+					return "close-error", err.Error()
+				}
+				seen := map[string]int{}
+				dgs := good.readAvailable(nil)
+				for i, dg := range dgs {
+					msg, err := decodeMessage(kind, dg)
+					if err != nil || msg.Left != 0 || msg.Name != "emitMetricBatchV2" {
+						return "corrupt-datagram-after-failed-message", fmt.Sprintf("%v [%s, dead first destination]: datagram %d of the healthy destination (%d bytes) is not one complete message: %v", histLabels(alphabet, hist), kind, i, len(dg), err)
+					}
+					user := 0
+					for _, m := range msg.Batch.Metrics {
+						var k string
+						switch m.Name {
+						case "u.a":
+							k = fmt.Sprintf("u.a count=%d", m.Value.Count)
+						case "u.b":
+							k = fmt.Sprintf("u.b gauge=%v", m.Value.Gauge)
+						default:
+							continue
+						}
+						user++
+						seen[k]++
+						if !reported[k] {
+							return "unreported-value-arrived", k
+						}
+					}
+					if user > 1 {
+						return "message-not-transmitted-alone", fmt.Sprintf("%v [%s, dead first destination]: datagram %d of the healthy destination carries %d reported values; every flush here follows a single report", histLabels(alphabet, hist), kind, i, user)
+					}
+				}
+				for k, c := range seen {
+					if c > 1 {
+						return "batch-duplicated", fmt.Sprintf("%v [%s, dead first destination]: the healthy destination received %q %d times", histLabels(alphabet, hist), kind, k, c)
+					}
+				}
+				if n >= 3 && len(seen) == 0 {
+					return "reporter-stopped-emitting", fmt.Sprintf("%v [%s, dead first destination]: %d batches reported, none reached the healthy destination", histLabels(alphabet, hist), kind, n)
+				}
+				return "", ""
+			})
+			key = fmt.Sprint(kind, "dead", hist)
+			return
+		}
+	}
 	var jobs []*SeqJob
+	for _, kind := range []string{"compact", "binary"} {
+		kind := kind
+		jd := &SeqJob{Property: "C15", Name: fmt.Sprintf("reporter-message-faults-%s-dead-first-destination", kind), Shards: 4}
+		jd.Run = func(ctx *SeqCtx) { bfs(ctx, alphabet[:2], depth, execDead(kind)) }
+		jd.Replay = func(ops []string) (string, string) { c, d, _, _ := execDead(kind)(opIndex(alphabet[:2], ops)); return c, d }
+		if kind == "compact" || tier == "thorough" {
+			jobs = append(jobs, jd)
+		}
+	}
 	for _, kind := range []string{"compact", "binary"} {
 		for _, nd := range []int{1, 2} {
 			kind, nd := kind, nd
